@@ -329,6 +329,20 @@ def main():
     L.append("/-- `QuicSendStream::finish`: no path returns before `stopped().await` -/")
     L.append(f"abbrev FINISH_AWAITS_STOPPED : Bool := {'false' if early else 'true'}")
 
+    # ---- driver/streams/{settings,connect}.rs: does the frame read in progress survive the drop of run()'s future?
+    for nm, relx in (("CONTROL_READ_PERSISTS_SETTINGS", "wtransport/src/driver/streams/settings.rs"),
+                     ("CONTROL_READ_PERSISTS_CONNECT", "wtransport/src/driver/streams/connect.rs")):
+        sx = strip_tests(rd(repo, relx))
+        reads = len(re.findall(r"\bstream\s*\.read_frame\(\)\s*\.await", sx))
+        if reads == 0:
+            raise Missing(f"{relx}: no `stream.read_frame().await`")
+        held = re.search(r"self\.reading\s*=\s*Some\(Box::pin\(async move \{[^}]*?stream\.read_frame\(\)\.await", sx, re.S)
+        polled = re.search(r"self\s*\.reading\s*\.as_mut\(\)", sx)
+        persists = bool(held and polled and reads == 1)
+        ex[nm] = persists
+        L.append(f"/-- `{relx.split('/')[-1]}`: the frame read in progress is stored in the stream holder, not in the future of `run` -/")
+        L.append(f"abbrev {nm} : Bool := {'true' if persists else 'false'}")
+
     # ---- tls.rs / config.rs: protocol versions, ALPN lists, pass-through of keep-alive and migration
     rel3 = "wtransport/src/tls.rs"
     s3 = strip_tests(rd(repo, rel3))
